@@ -1,4 +1,5 @@
 pub mod abi;
+pub mod gateway;
 
 use crate::rng::Rng;
 use crate::Sink;
@@ -7,6 +8,7 @@ pub fn generate(prop: &str, rng: &mut Rng, n: usize, sink: &mut Sink) {
     match prop {
         "C06" => abi::gen_c06(rng, n, sink),
         "C07" => abi::gen_c07(rng, n, sink),
+        "C01" | "C02" | "C03" => gateway::gen(rng, n, sink, prop),
         _ => panic!("no generator for {prop}"),
     }
 }
